@@ -154,6 +154,9 @@ def design_demand(ctx):
     if not ctx.quick:
         dc = ctx.tlc_must_hold(SPEC, "MC_Demand_dc%s.cfg" % sfx, module="MC_Demand", timeout=2400, workers=4, deadlock_check=False,
                                name="MC_Demand_dc")
+        k3 = ctx.tlc_must_hold(SPEC, "MC_Demand_k3.cfg", module="MC_Demand", timeout=2400, workers=4, deadlock_check=False,
+                               name="MC_Demand_k3")
+        ctx.log("design Demand: chains of 3 stages, %d states OK" % k3.distinct)
     real = ctx.tlc(SPEC, "MC_Demand_real%s.cfg" % sfx, module="MC_Demand", timeout=2400, workers=4, deadlock_check=False,
                    expect_fail=True, name="MC_Demand_real")
     if real.violated != "CompletedCorrectly":
